@@ -22,6 +22,12 @@ Theorem C01_linear_gs_is_grad (T din dout : nat) (W dW : nat -> nat -> K) (b db 
   kadd (sumn dout (fun j => sumn din (fun i => kmul (lin_gs_w K k0 kadd kmul T g x j i) (dW j i)))) (sumn dout (fun j => kmul (lin_gs_b K k0 kadd T g j) (db j)))
   = pair2 K k0 kadd kmul T dout g (fun t j => ksub (lin_fwd K k0 kadd kmul din (fun j i => kadd (W j i) (dW j i)) (fun j => kadd (b j) (db j)) x t j) (lin_fwd K k0 kadd kmul din W b x t j)).
 Proof. exact (linear_gs_is_grad K k0 k1 kadd kmul ksub kopp Kring T din dout W dW b db x g). Qed.
+(* nn.Conv1d / 2d / 3d as one gather layer (arbitrary channel map and tap-location map: every stride, padding incl. "same", dilation, groups, rank) *)
+Theorem C01_conv_gs_is_grad (P O C Kk : nat) (chan src : nat -> nat -> nat) (W dW : nat -> nat -> nat -> K) (b db : nat -> K) (xp : nat -> nat -> K) (g : nat -> nat -> K) :
+  kadd (sumn O (fun o => sumn C (fun c => sumn Kk (fun k => kmul (conv_gs_w K k0 kadd kmul P chan src g xp o c k) (dW o c k))))) (sumn O (fun o => kmul (conv_gs_b K k0 kadd P g o) (db o)))
+  = pair2 K k0 kadd kmul P O g (fun p o => ksub (conv_fwd K k0 kadd kmul C Kk chan src (fun o c k => kadd (W o c k) (dW o c k)) (fun o => kadd (b o) (db o)) xp p o)
+                                                (conv_fwd K k0 kadd kmul C Kk chan src W b xp p o)).
+Proof. exact (conv_gs_is_grad K k0 k1 kadd kmul ksub kopp Kring P O C Kk chan src W dW b db xp g). Qed.
 (* nn.Embedding with or without padding_idx (the padding row is a constant: zero gradient) *)
 Theorem C01_embedding_gs_is_grad (pad : option nat) (c : nat -> K) (T V D : nat) (W dW : nat -> nat -> K) (idx : nat -> nat) (g : nat -> nat -> K) :
   (forall t, t < T -> idx t < V) ->
@@ -56,7 +62,7 @@ Theorem C01_uses_then_promote (K : Type) (k0 : K) (kadd : K -> K -> K) (mb : nat
 Proof. exact (uses_then_promote K k0 kadd mb g1 gs stacked). Qed.
 (* the registered samplers use exactly these formulas (table generated from the sources) *)
 Theorem C01_sampler_table_covers :
-  forallb (fun r => match snd r with FLinW | FLinB | FEmbScatterPadZero | FNormW | FNormB | FSeqBiasLast => true end) sampler_table = true /\ Nat.leb 1 (length sampler_table) = true.
+  forallb (fun r => match snd r with FLinW | FLinB | FConvW | FConvB | FEmbScatterPadZero | FNormW | FNormB | FSeqBiasLast => true end) sampler_table = true /\ Nat.leb 1 (length sampler_table) = true.
 Proof. split; reflexivity. Qed.
 
 (* non-vacuity: the Linear identity instantiated on Z with concrete tensors (2 positions, 2 inputs, 1 output) *)
@@ -67,6 +73,7 @@ Proof. vm_compute. split; reflexivity. Qed.
 
 Print Assumptions C01_adjoint_unique.
 Print Assumptions C01_linear_gs_is_grad.
+Print Assumptions C01_conv_gs_is_grad.
 Print Assumptions C01_embedding_gs_is_grad.
 Print Assumptions C01_norm_affine_gs_is_grad.
 Print Assumptions C01_uses_accumulate.
